@@ -27,6 +27,9 @@ class FnEval:
         self._guards = None
         self.at = None
         self.ptr_max = (1 << facts.ptr_bits) - 1
+        # caller-derived facts for the parameters of private functions (join over all call sites):
+        self.param_val = {}     # param local -> (lo, hi) of a by-value integer
+        self.param_len = {}     # param local -> (lo, hi) of the length of the slice it references
 
     def at_block(self, bi):
         self.at = bi
@@ -89,7 +92,7 @@ class FnEval:
         b = self.b
         defs = b.defs().get(local, [])
         if local != 0 and local <= self.fn["argc"]:
-            return None
+            return self.param_val.get(local) if not defs else None
         if not defs:
             return None
         whole = [d for d in defs if d[2] in ("A", "call")]
@@ -154,6 +157,19 @@ class FnEval:
                 if iv:
                     for ft in false_t:
                         out.append((key, reads, iv[0], iv[1], bi, ft))
+            if const_int(rv[2]) is None and const_int(rv[3]) is None and rv[1] in ("Lt", "Le", "Gt", "Ge"):
+                # relational test between two values: `i < n` says n - i >= 1 on the true edge (and i - n >= 0 on the
+                # false edge); recorded as a fact about the difference expression, which is what the code computes next
+                reads = []
+                kx, ky = self.expr_key(rv[2], reads), self.expr_key(rv[3], reads)
+                false_t = [z[1] for z in t[2] if int(z[0]) == 0]
+                op = rv[1]
+                # (difference key, lower bound) on the true edge / on the false edge
+                tr = {"Lt": (("Sub", ky, kx), 1), "Le": (("Sub", ky, kx), 0), "Gt": (("Sub", kx, ky), 1), "Ge": (("Sub", kx, ky), 0)}[op]
+                fa = {"Lt": (("Sub", kx, ky), 0), "Le": (("Sub", kx, ky), 1), "Gt": (("Sub", ky, kx), 0), "Ge": (("Sub", ky, kx), 1)}[op]
+                out.append((tr[0], reads, tr[1], INF, bi, t[3]))
+                for ft in false_t:
+                    out.append((fa[0], reads, fa[1], INF, bi, ft))
         self._vguards = out
         return out
 
@@ -191,7 +207,8 @@ class FnEval:
             if eto != bi:
                 # the guarded value may only be reused further down when it reads nothing that can change: parameters
                 # that are never assigned in this body are fine, any other multiply-defined local is not
-                if any(self.b.defs().get(l) for (l, rb) in reads + greads):
+                mut = [(l, rb) for (l, rb) in reads + greads if self.b.defs().get(l)]
+                if mut and not self.reads_consistent(mut):
                     ok = False
             if not ok:
                 continue
@@ -496,6 +513,11 @@ class FnEval:
                     k = self.offset_between(ro[1], ro[2])
                     if k is not None and k >= 0:
                         return (k, k)
+                    sv = self.offset_local_between(ro[1], ro[2])
+                    if sv is not None:
+                        iv = self.ival(sv[0], at, depth + 1)
+                        if iv is not None and iv[0] + sv[1] >= 0:
+                            return (iv[0] + sv[1], iv[1] + sv[1])
             if kind == "range" and a is not None and c is not None:
                 lo = max(0, c[0] - a[1])
                 hi = c[1] - a[0]
@@ -616,16 +638,25 @@ class FnEval:
         for (l, bi) in reads:
             bylocal.setdefault(l, set()).add(bi)
         for l, blocks in bylocal.items():
+            defs_l = self.b.defs().get(l, [])
+            if not defs_l:
+                continue
             bl = list(blocks)
-            # order by dominance
-            bl.sort(key=lambda x: sum(1 for y in bl if self.b.dominates(y, x)))
-            for i in range(len(bl) - 1):
-                if not self.b.dominates(bl[i], bl[i + 1]):
-                    return False
-            first, last = bl[0], bl[-1]
+            # nearest common dominator of the reading blocks: every read happens after it; the reads agree when no
+            # definition of the local lies in a reading block or on a path from that dominator to one of them
+            first = bl[0]
+            for x in bl[1:]:
+                guard = 0
+                while not self.b.dominates(first, x) and guard < 10000:
+                    nf = self.b.idom().get(first)
+                    if nf is None or nf == first:
+                        return False
+                    first = nf
+                    guard += 1
             between = set()
-            if first != last:
-                # blocks on some path first -> last that does not pass through `first` again
+            for last in bl:
+                if last == first:
+                    continue
                 fwd = set()
                 st = list(self.b.succ[first])
                 while st:
@@ -644,8 +675,8 @@ class FnEval:
                     bwd.add(x)
                     if x != first:
                         st.extend(self.b.pred[x])
-                between = fwd & bwd
-            for d in self.b.defs().get(l, []):
+                between |= (fwd & bwd)
+            for d in defs_l:
                 D = d[0]
                 if D in blocks or D in between:
                     return False
@@ -667,6 +698,24 @@ class FnEval:
         if any(v_ != 0 for v_ in d.values()):
             return None
         return le[1] - ls[1]
+
+    def offset_local_between(self, start_op, end_op):
+        """(local, c) if end == start + local + c structurally (`&xx[i..i + blen]`), else None."""
+        reads = []
+        ks = self.expr_key(start_op, reads)
+        ke = self.expr_key(end_op, reads)
+        if not self.reads_consistent(reads):
+            return None
+        ls, le = self.linform(ks), self.linform(ke)
+        if ls is None or le is None:
+            return None
+        d = dict(le[0])
+        for k_, v_ in ls[0].items():
+            d[k_] = d.get(k_, 0) - v_
+        nz = [(k_, v_) for k_, v_ in d.items() if v_ != 0]
+        if len(nz) != 1 or nz[0][1] != 1 or nz[0][0][0] != "l":
+            return None
+        return nz[0][0][1], le[1] - ls[1]
 
     def linform(self, key, depth=0):
         """Linear form ({atom: coeff}, const) of a canonical expression key (None if too deep)."""
@@ -884,6 +933,58 @@ class FnEval:
             l2 = operand_local(d[3][2][1])
             if l2 is not None:
                 return self._min_args(l2)
+        if d is None:
+            return self._ifelse_min(l)
+        return None
+
+    def _min_keys(self, l, reads):
+        """expression keys (a, b) such that local l = min(a, b)."""
+        ma = self._min_args(l)
+        if ma is not None and not isinstance(ma, tuple):
+            return [self.expr_key(a, reads) for a in ma]
+        if isinstance(ma, tuple):
+            reads.extend(ma[1])
+            return ma[0]
+        return None
+
+    def _ifelse_min(self, l):
+        """`let m = if e > K { K } else { e }` (either orientation): two definitions, a constant K where a dominating
+        branch edge says e >= K, and e where the opposite edge says e <= K: m = min(K, e).  Returns ([keys], reads)."""
+        defs = self.b.defs().get(l, [])
+        if len(defs) != 2 or any(d[2] != "A" for d in defs):
+            return None
+        kd = [d for d in defs if d[3][2][0] == "use" and const_int(d[3][2][1]) is not None]
+        ed = [d for d in defs if d not in kd]
+        if len(kd) != 1 or len(ed) != 1:
+            return None
+        K = const_int(kd[0][3][2][1])
+        rv = ed[0][3][2]
+        reads = []
+        if rv[0] == "use" and rv[1][0] in ("cp", "mv"):
+            ekey = self.expr_key(rv[1], reads)
+        elif rv[0] == "bin":
+            ekey = (rv[1], self._opk(rv[2], reads, 0, ed[0][0]), self._opk(rv[3], reads, 0, ed[0][0]))
+        else:
+            return None
+
+        def guarded(block, want_lo, want_hi):
+            for (gk, greads, lo, hi, efrom, eto) in self.value_guards():
+                if gk != ekey:
+                    continue
+                if not (eto == block or self.b.dominates(eto, block)):
+                    continue
+                preds = [p for p in self.b.pred[eto] if p in self.b.reachset]
+                if any(p != efrom for p in preds):
+                    continue
+                if not self.reads_consistent(list(reads) + list(greads)):
+                    continue
+                if want_lo is not None and lo >= want_lo:
+                    return True
+                if want_hi is not None and hi <= want_hi:
+                    return True
+            return False
+        if guarded(kd[0][0], K, None) and guarded(ed[0][0], None, K):
+            return ([("k", K), ekey], reads)
         return None
 
     def ub_linforms(self, key, reads, depth=0):
@@ -896,12 +997,11 @@ class FnEval:
         for atom, coef in list(lf[0].items()):
             if coef <= 0 or atom[0] != "l" or depth > 2:
                 continue
-            ma = self._min_args(atom[1])
+            ma = self._min_keys(atom[1], reads)
             if ma is None:
                 continue
             alts = []
-            for a in ma:
-                ak = self.expr_key(a, reads)
+            for ak in ma:
                 for base in out:
                     if atom not in base[0]:
                         continue
@@ -1295,7 +1395,7 @@ class FnEval:
 
     def guard_len(self, param, at):
         """Interval of len(param slice) at block `at` from dominating guard edges."""
-        lo, hi = 0, INF
+        lo, hi = self.param_len.get(param, (0, INF))
         if at is None:
             return (lo, hi)
         b = self.b
